@@ -25,7 +25,12 @@ Inductive case :=
      Some (matched, TX.0-9 read directly, copies tx.c0-9 made by setvar when matched) *)
   | CRule (optext : bytes) (ltbl : list (N * N)) (m : option (list Z)) (capturing : bool)
           (tx : list (bytes * bytes)) (value : bytes)
-          (res : option (bool * list bytes * list bytes)).
+          (res : option (bool * list bytes * list bytes))
+  (* capturing evaluations one after the other on the same transaction: result and TX.0-9
+     after each step (a later evaluation starts from what the earlier ones left) *)
+  | CCapSeq (steps : list cap_step) (obs : list (bool * list bytes))
+  (* several rules in one WAF, each on its own header: matched flags and the final TX.0-9 *)
+  | CRuleSeq (rules : list rule_in) (res : option (list bool * list bytes)).
 
 Definition opt_bytes_eqb (a b : option bytes) : bool :=
   match a, b with
@@ -85,6 +90,15 @@ Definition ok (c : case) : bool :=
     | Some (matched, tx'), Some (matched', caps, copies) =>
       Bool.eqb matched matched' && list_eqb bytes_eqb (caps_of tx') caps
       && (negb matched || list_eqb bytes_eqb (trim_empties (map (copy_of_capture tx') (seq 0 10))) copies)
+    | _, _ => false
+    end
+  | CCapSeq steps obs =>
+    list_eqb (fun a b => Bool.eqb (fst a) (fst b) && list_eqb bytes_eqb (snd a) (snd b))
+             (map (fun p => (fst p, caps_of (snd p))) (capture_seq tx_init steps)) obs
+  | CRuleSeq rules res =>
+    match rules_eval tx_init rules, res with
+    | None, None => true
+    | Some (bs, tx'), Some (bs', caps) => list_eqb Bool.eqb bs bs' && list_eqb bytes_eqb (caps_of tx') caps
     | _, _ => false
     end
   end.
